@@ -99,8 +99,17 @@ impl Guard<'_> {
     }
 }
 
+/// VERIF_SELFTEST_ALIAS=1: the harness itself hands out a *shared* guard where an exclusive one was
+/// asked for, i.e. it simulates a world whose exclusive borrows alias. Only used to show that the
+/// shadow oracle notices aliasing (DESIGN.md 7.4); never set by any registered command.
+fn selftest_alias() -> bool {
+    static ON: std::sync::OnceLock<bool> = std::sync::OnceLock::new();
+    *ON.get_or_init(|| std::env::var("VERIF_SELFTEST_ALIAS").is_ok())
+}
+
 fn fetch<'a>(world: &'a World, cell: usize, excl: bool) -> Option<Guard<'a>> {
     let id = rid(cell);
+    let excl = excl && !selftest_alias();
     match (cell / ND, excl) {
         (0, false) => world.try_fetch_by_id::<Pair<0>>(id).map(Guard::S0),
         (1, false) => world.try_fetch_by_id::<Pair<1>>(id).map(Guard::S1),
